@@ -112,6 +112,8 @@ pub use path_builder::*;
 pub use crate::draw_target::{AntialiasMode, FilterMode};
 pub use crate::draw_target::{BlendMode, DrawOptions, DrawTarget, SolidSource, Source, Winding, ExtendMode, Mask};
 pub use crate::stroke::*;
+#[cfg(raqote_verif)]
+pub use crate::dash::dash_path as verif_dash_path;
 
 pub use sw_composite::{Color, Gradient, GradientStop, Image, Spread};
 
